@@ -89,7 +89,31 @@ def detect(prop, n, checks, wt=None):
     return any(r['rc'] == 1 for r in results.values())
 
 
+def summary():
+    import glob
+
+    rows = []
+    for d in sorted(glob.glob(os.path.join(V, 'seeded', '*-*'))):
+        mp = os.path.join(d, 'meta.json')
+        if not os.path.exists(mp):
+            continue
+        m = json.load(open(mp))
+        det = m.get('detection', {})
+        notes = (m.get('what_it_needs') or '').strip().split('\n')
+        first = next((l.strip('# ').strip() for l in notes if l.strip()), '')
+        rows.append((os.path.basename(d), m.get('breaks_property'), m['confirmation'].get('confirmed'),
+                     ', '.join(f"{c}:{'caught' if r['rc'] == 1 else ('exit ' + str(r['rc']))}" for c, r in sorted(det.items())), first[:110]))
+    with open(os.path.join(V, 'seeded', 'SUMMARY.md'), 'w') as f:
+        f.write('# Seeded changes and the quick checks that catch them\n\n| id | breaks | confirmed | quick checks | what |\n|---|---|---|---|---|\n')
+        for r in rows:
+            f.write('| ' + ' | '.join(str(x) for x in r) + ' |\n')
+    print(open(os.path.join(V, 'seeded', 'SUMMARY.md')).read())
+
+
 if __name__ == '__main__':
+    if sys.argv[1] == 'summary':
+        summary()
+        sys.exit(0)
     cmd, prop, n = sys.argv[1], sys.argv[2], int(sys.argv[3])
     if cmd == 'confirm':
         wt = sys.argv[5] if len(sys.argv) > 5 and sys.argv[4] == '--wt' else f'/tmp/wt_{prop}'
